@@ -15,7 +15,7 @@ RULE = (
     "distinct = distinct (per-request type, handler kind, tuple of duplicate timing classes, endpoint relation) shapes"
 )
 ASSUMPTIONS = ["EXCHANGE_LIFETIME and EMPTY_ACK_DELAY are read from the library's default TransportTuning at run time"]
-REQUIRED_MONITORS = {"epoch_once": 300, "dup_con_reanswer": 200, "dup_non_silent": 50, "after_lifetime_new": 30, "same_mid_other_endpoint": 50, "mid_collision": 4, "transport_error_between_copies": 100}
+REQUIRED_MONITORS = {"epoch_once": 300, "dup_con_reanswer": 200, "dup_non_silent": 50, "after_lifetime_new": 30, "same_mid_other_endpoint": 50, "mid_collision": 4, "id_used_before_for_a_non_request": 20, "transport_error_between_copies": 100}
 
 KINDS = ["fast", "slow", "fail", "noresp", "notfound", "nr-other-class", "nr-other-class-slow", "nr-fail"]
 OFFS = {
@@ -49,7 +49,15 @@ def gen_history(r, EL):
         kind = r.choice(KINDS)
         tok = bytes([0x10 + i])
         t += r.choice([0.0, 0.01, 0.2, 3.0, 50.0, EL + 1.0])
-        spec = {"peer": p, "mid": mid, "type": typ, "kind": kind, "token": tok.hex(), "t": t, "dups": []}
+        pre = None
+        if r.random() < 0.25:
+            # the peer has used this message ID before, for something that is not a request (a ping, a confirmable or
+            # non-confirmable response nobody waits for), more than
+            # EXCHANGE_LIFETIME before the request: the request is a new one
+            mid = 100 + i  # an ID no other request of the history uses: copies of those arrive up to 2 EL late
+            pre = {"t": t, "what": r.choice(["ping", "con-response", "non-response", "ping"])}
+            t += EL + r.choice([0.5, 50.0, 2 * EL])
+        spec = {"peer": p, "mid": mid, "type": typ, "kind": kind, "token": tok.hex(), "t": t, "dups": [], "pre": pre}
         for _ in range(r.choice([0, 1, 1, 2, 3, 6])):
             cls = r.choice(list(OFFS))
             off = OFFS[cls]
@@ -71,6 +79,10 @@ def build(spec, variant="copy"):
 
     kind = spec["kind"]
     tok = bytes.fromhex(spec["token"])
+    if variant == "pre:ping":
+        return rc.Msg(rc.CON, 0, spec["mid"], b"", (), b"")
+    if variant.startswith("pre:"):
+        return rc.Msg(rc.CON if variant == "pre:con-response" else rc.NON, rc.c(2, 5), spec["mid"], b"\x77" + tok, (), b"nobody waits for this")
     if variant == "other-token":
         tok = tok + b"\xee"
     path = b"r"
@@ -128,6 +140,8 @@ def run_history(peers, hist, seed, rep, case, EL):
         events = []
         for spec in hist:
             events.append((spec["t"], spec, "copy", True))
+            if spec.get("pre"):
+                events.append((spec["pre"]["t"], spec, "pre:" + spec["pre"]["what"], False))
             for d in spec["dups"]:
                 events.append((spec["t"] + d["off"], spec, d["variant"], False))
         events.sort(key=lambda e: e[0])
@@ -179,6 +193,8 @@ def judge(box, hist, peers, res, rep, case, EL):
         if first is None or e.t - first > EL:
             if first is not None:
                 rep.monitor("after_lifetime_new")
+            if any(x.kind == "deliver" and x.dst == S and x.src == e.src and x.msg is not None and x.msg.mid == e.msg.mid and not rc.is_request(x.msg.code) and x.seq < e.seq for x in net.log):
+                rep.monitor("id_used_before_for_a_non_request")
             seen[key] = e.t
             ep = {"key": key, "t0": e.t, "type": e.msg.type, "token": e.msg.token, "dups": []}
             epochs.append(ep)
